@@ -379,7 +379,7 @@ func cmdReplayWork(args []string) {
 	for _, cls := range ClassNames {
 		k.Script(cls)
 	}
-	if *rl > 0 {
+	if *rl > 0 && !raceEnabled {
 		lim := vmSize() + uint64(*rl)<<20
 		syscall.Setrlimit(syscall.RLIMIT_AS, &syscall.Rlimit{Cur: lim, Max: lim})
 		debug.SetMemoryLimit(int64(*rl) << 20 / 3) // the collector works harder long before the hard limit is near
@@ -425,7 +425,13 @@ func cmdReplayWork(args []string) {
 		j := recJob{n: cl.N, raw: cl.Line, line: ln}
 		lineCPU.Store(cpuNow())
 		defer lineCPU.Store(0)
-		if ln.K == "rec" {
+		if ln.K == "rec" && (ln.C.K == "bulk" || ln.C.K == "wide") {
+			ws.Snap++
+			ws.Kinds[ln.C.K]++
+			steps, procs := replayBulk(st, j, *seed, *dir, &ws.Fail, &ws.Infra, &mu)
+			ws.Steps += int64(steps)
+			ws.Procs += int64(procs)
+		} else if ln.K == "rec" {
 			ws.Rec++
 			ws.Kinds[ln.C.K]++
 			replayRec(k, st, j, *seed, &ws.Fail, &ws.Infra, &mu)
